@@ -3,6 +3,7 @@ package props
 import (
 	"fmt"
 	"go/token"
+	"go/types"
 	"strings"
 
 	"fsverif/eng"
@@ -11,7 +12,7 @@ import (
 )
 
 func init() {
-	register("C17", "Structural clauses of the tar export, decided on all paths of WriteTar's callback: the header is built by tar.FileInfoHeader from the view's FileInfo and link name, then Name (slash form, trailing slash for directories), Uid, Gid, Devmajor, Devminor and Linkname are overridden from the stat before WriteHeader; entries with a link name get size 0 and the symlink or hard-link type according to the mode; every xattr becomes a SCHILY.xattr.<key> PAX record; a payload is copied (checked, from Open of the walked path, closed) only for regular, non-empty, non-link members; the archive is closed as the success return after a checked walk. Does not decide well-formedness (archive/tar, trusted) nor the round trip.", runC17)
+	register("C17", "Structural clauses of the tar export, decided on all paths of WriteTar's callback: the header is built by tar.FileInfoHeader from the view's FileInfo and link name, then Name (slash form, trailing slash for directories), Uid, Gid, Devmajor, Devminor and Linkname are overridden from the stat before WriteHeader; entries with a link name get size 0 and the symlink or hard-link type according to the mode; every xattr becomes a SCHILY.xattr.<key> PAX record; a payload is copied (checked, from Open of the walked path, closed) only for regular, non-empty, non-link members; the archive is closed as the success return after a checked walk. Only directories get a trailing slash; an entry is written exactly when its info carries a stat; the FileInfo view the header is built from (StatInfo) projects the stat's own size, mode, name and mtime (seconds, then nanoseconds). Does not decide well-formedness (archive/tar, trusted) nor the round trip.", runC17)
 }
 
 func runC17(c *Ctx) {
@@ -35,6 +36,66 @@ func runC17(c *Ctx) {
 	r09_5(c, "R17.7")
 	// the walk behind the archive: a failure to read an entry is not dropped (shared with C04)
 	r04_15(c, "R17.8")
+	// tar.FileInfoHeader takes size, mode and mtime from the entry's FileInfo
+	r17_9(c, "R17.9")
+}
+
+// R17.9: the FileInfo view of a stat projects the stat's own fields.
+func r17_9(c *Ctx, rule string) {
+	c.R.Rule(rule, "StatInfo is a projection of its stat: Size returns Stat.Size, Mode converts Stat.Mode, ModTime is time.Unix(ModTime/1e9, ModTime%1e9) (or time.Unix(0, ModTime)), Name is the base name of Stat.Path, Sys returns the stat")
+	ret := func(fn *ssa.Function) ssa.Value {
+		var out ssa.Value
+		n := 0
+		eng.Instrs(fn, func(in ssa.Instruction) {
+			if r, ok := in.(*ssa.Return); ok && r.Parent() == fn && len(r.Results) == 1 {
+				out = r.Results[0]
+				n++
+			}
+		})
+		if n != 1 {
+			return nil
+		}
+		return out
+	}
+	field := func(owner string) func(ssa.Value) bool {
+		return func(v ssa.Value) bool { return isFieldLoad(v, owner) }
+	}
+	for _, m := range []struct{ meth, owner, what string }{
+		{"Size", "types.Stat.Size", "Stat.Size"},
+		{"Mode", "types.Stat.Mode", "Stat.Mode"},
+		{"Name", "types.Stat.Path", "the base name of Stat.Path"},
+		{"Sys", "fsutil.StatInfo.Stat", "the stat"},
+	} {
+		fn := c.Fn(rule, "fsutil.(*StatInfo)."+m.meth)
+		if fn == nil {
+			continue
+		}
+		v := ret(fn)
+		if v == nil {
+			c.R.OK(rule, c.name(fn)+"/shape", c.P.Pos(fn.Pos()), "not a single-return accessor (not interpreted)")
+			continue
+		}
+		c.R.Check(c.DerivesFrom(v, field(m.owner), 4), rule, c.name(fn)+"/projects", c.P.Pos(fn.Pos()), "returns "+m.what, "StatInfo."+m.meth+" does not return "+m.what+": everything that reads the entry through os.FileInfo (the tar header, the disk writer's type dispatch) sees another value")
+	}
+	if fn := c.Fn(rule, "fsutil.(*StatInfo).ModTime"); fn != nil {
+		calls := c.P.CallsTo(fn, "time.Unix")
+		if len(calls) != 1 {
+			c.R.OK(rule, c.name(fn)+"/shape", c.P.Pos(fn.Pos()), "ModTime is not built by one time.Unix call (not interpreted)")
+		} else {
+			a := calls[0].Common().Args
+			div := func(v ssa.Value, op token.Token) bool {
+				b, ok := eng.Canon(v).(*ssa.BinOp)
+				if !ok || b.Op != op || !isFieldLoad(b.X, "types.Stat.ModTime") {
+					return false
+				}
+				k, isK := eng.ConstInt(b.Y)
+				return isK && k == 1000000000
+			}
+			zero := func(v ssa.Value) bool { k, ok := eng.ConstInt(v); return ok && k == 0 }
+			ok := (div(a[0], token.QUO) && div(a[1], token.REM)) || (zero(a[0]) && isFieldLoad(a[1], "types.Stat.ModTime"))
+			c.R.Check(ok, rule, c.name(fn)+"/seconds-then-nanoseconds", c.pos(calls[0]), "time.Unix(ModTime/1e9, ModTime%1e9)", "StatInfo.ModTime does not split the nanosecond timestamp into (seconds, nanoseconds) in that order: archive members and FileInfo consumers get a wrong mtime")
+		}
+	}
 }
 
 // beforeEveryHeader: every path of lit to any WriteHeader call passes a.
@@ -163,6 +224,52 @@ func r17_1(c *Ctx, rule string, lit *ssa.Function) {
 	ex.StopAtTarget = true
 	ex.Run()
 	c.R.Check(seen > 0 && bad == 0 && len(as) >= 2 && !ex.Exhausted, rule, c.name(lit)+"/hdr.Name/dir-slash", c.pos(ns[0]), "directories are named with a trailing slash", "a directory member's name does not get a trailing slash")
+	// ... and only directories
+	as2 := map[string]bool{}
+	for _, call := range c.P.CallsTo(lit, "(io/fs.FileInfo).IsDir") {
+		if cl, ok := call.(*ssa.Call); ok {
+			as2[x.KeyAtEntry(cl)] = false
+		}
+	}
+	ex2 := c.explorer(lit)
+	ex2.Assume = as2
+	bad2, seen2 := 0, 0
+	ex2.Barrier = func(in ssa.Instruction, st *eng.State) bool {
+		if st2, ok := in.(*ssa.Store); ok && isName(in) {
+			st.Facts[slashed] = strings.HasSuffix(ex2.SourceKey(st2.Val, st), `+c:"/")`)
+		}
+		return false
+	}
+	ex2.Target = func(in ssa.Instruction, st *eng.State) bool {
+		if in != ssa.Instruction(wh) {
+			return false
+		}
+		seen2++
+		if st.Facts[slashed] {
+			bad2++
+		}
+		return true
+	}
+	ex2.StopAtTarget = true
+	ex2.Run()
+	c.R.Check(seen2 > 0 && bad2 == 0 && !ex2.Exhausted, rule, c.name(lit)+"/hdr.Name/file-no-slash", c.pos(ns[0]), "a member that is not a directory is written under its plain name", "a member that is not a directory can get a trailing slash appended to its name (or is never written): extraction creates a directory where the file should be")
+	// a typed entry is written, an untyped one is refused
+	eng.InstrsShallow(lit, func(in ssa.Instruction) {
+		ta, ok := in.(*ssa.TypeAssert)
+		if !ok || !ta.CommaOk || types.TypeString(ta.AssertedType, nil) != "*github.com/tonistiigi/fsutil/types.Stat" {
+			return
+		}
+		for _, r := range eng.Referrers(ta) {
+			exr, isE := r.(*ssa.Extract)
+			if !isE || exr.Index != 1 {
+				continue
+			}
+			y := c.explorer(lit)
+			hitOK, und1 := c.ReachableUnder(lit, map[string]bool{y.RegKey(exr): true}, nil, func(i2 ssa.Instruction) bool { return i2 == ssa.Instruction(wh) })
+			hitNo, und2 := c.ReachableUnder(lit, map[string]bool{y.RegKey(exr): false}, nil, func(i2 ssa.Instruction) bool { return i2 == ssa.Instruction(wh) })
+			c.R.Check(!und1 && !und2 && hitOK != nil && hitNo == nil, rule, c.name(lit)+"/stat-carrying-entry-written", c.pos(ta), "an entry whose info carries a stat is written, one without is refused", "the test of the stat type assertion is inverted: every well-formed entry is refused (or one without a stat is dereferenced)")
+		}
+	})
 }
 
 // linkNameTests: the tests `Linkname != ""` on the header or the stat, as
